@@ -451,11 +451,25 @@ def scope_record(scope):
             'sec_meta': bool(eff.get(-2, 0) & 1), 'oth_meta': bool(eff.get(7, 0) & 1), 'oth_btsd': bool(eff.get(7, 0) & 2)}
 
 
+def _bib_is_encrypted(octets):
+    ''' Does a confidentiality block of the bundle name an integrity block among its targets (RFC 9172 3.9)?
+    Read independently of the code under test. '''
+    try:
+        bun = bp7.read_bundle(octets)
+        types = {b['num']: b['type'] for b in bun['blocks']}
+        for b in bun['blocks']:
+            if b['type'] == 12 and any(types.get(t) == 11 for t in cose.read_asb(b['data'])['targets']):
+                return True
+    except Exception:
+        pass
+    return False
+
+
 def receive(octets, keymode='right', accept=False, sec='none', plain='', nsec=0):
     ''' Run a receiving agent over the bundle. :return: (bp trace, dict(delivered, pay, sec_left, reason)) '''
     world = BpWorld(node_id='dtn://node/', rx_routes=[(PROBE, 'deliver')], tx_routes=[('dtn://rpt/', 'dtn://rpt/', None)],
                     accept=accept, setup=dest_setup(keymode))
-    world.recv(octets, sec=sec, plain=plain, nsec=nsec)
+    world.recv(octets, sec=sec, plain=plain, nsec=nsec, encbib=_bib_is_encrypted(octets))
     world.run_idle()
     cons = [ev for ev in world.log if ev['a'] == 'Consume']
     reps = [ev['b']['report'][0] for ev in world.log if ev['a'] == 'ClOut' and ev['b']['report']]
@@ -660,12 +674,39 @@ def c12_bundle(variant, k):
                     else:
                         b['data'] = b'\x9f\x01'
         return bp7.write_bundle(b2['primary'], blocks2), 'bad', 1, plain
+    if variant.startswith('bcb_over_bib'):
+        # RFC 9172 section 3.9: a BCB that targets a block which a BIB targets also targets that BIB, so the
+        # integrity block travels encrypted.  Here: BIB 9 over the payload, BCB 10 over [BIB 9, payload].
+        tamper = {'bcb_over_bib_good': None, 'bcb_over_bib_bad_tag': 'tag', 'bcb_over_bib_other_key': None,
+                  'bcb_over_bib_bad_ct': None}[variant]
+        key = bytes(range(40, 72)) if variant == 'bcb_over_bib_other_key' else None
+        sbi, _p, _m = _mac0_block(octets, bun, 1, 9, tamper=tamper, key=key)
+        o1 = assemble([sbi])
+        b1 = bp7.read_bundle(o1)
+        blocks1 = [dict(b) for b in b1['blocks']]
+        bcb = {'type': 12, 'num': 10, 'flags': 0, 'crc_type': 0, 'data': b''}
+        asb = {'params': {}, 'source_raw': bp7.text_to_eid(SRC_NODE)}
+        results = []
+        for tnum in (9, 1):
+            tgt = [b for b in b1['blocks'] if b['num'] == tnum][0]
+            aad = cose.external_aad(o1, b1, bcb, asb, tgt)
+            msg, ct = cose.enc0_message(KEYS['enc'], 1, KID['enc'], b'IV-obib-%04d' % (tnum + 10 * (k % 90)), aad, tgt['data'])
+            results.append([(cose.TAG_ENC0, msg)])
+            for b in blocks1:
+                if b['num'] == tnum:
+                    b['data'] = ct
+                    if variant == 'bcb_over_bib_bad_ct' and tnum == 9:
+                        b['data'] = ct[:-1] + bytes([ct[-1] ^ 1])
+        bcb['data'] = cose.write_asb([9, 1], cose.CTX_COSE, SRC_NODE, [], results)
+        blocks1.insert(len(blocks1) - 1, bcb)
+        return (bp7.write_bundle(b1['primary'], blocks1), 'good' if variant == 'bcb_over_bib_good' else 'bad', 2, pay)
     raise ValueError(variant)
 
 
 C12_VARIANTS = ['none', 'good', 'bad_tag', 'ctx99', 'missing_target', 'dup_param', 'dup_result', 'two_results_kinds',
                 'garbled_cose', 'cose_wrong_shape', 'garbled_asb', 'truncated_asb', 'two_good', 'second_bad',
-                'first_bad', 'second_bad_ctx', 'bcb_good', 'bcb_bad_ct', 'bcb_ctx99', 'bcb_garbled']
+                'first_bad', 'second_bad_ctx', 'bcb_good', 'bcb_bad_ct', 'bcb_ctx99', 'bcb_garbled',
+                'bcb_over_bib_good', 'bcb_over_bib_bad_tag', 'bcb_over_bib_other_key', 'bcb_over_bib_bad_ct']
 
 
 def c12_executions(tier, seed):
